@@ -25,7 +25,9 @@ Constructs == {
 }
 \* raising forms: <<name, number of lines>>
 Raisers == {<<"call", 1>>, <<"call3", 3>>, <<"div2", 2>>, <<"index2", 2>>, <<"attr2", 2>>, <<"name", 1>>,
-            <<"raise2", 2>>, <<"assert", 1>>, <<"unpack2", 2>>}
+            <<"raise2", 2>>, <<"assert", 1>>, <<"unpack2", 2>>,
+            \* forms the compiler rewrites before compiling them
+            <<"aug3", 2>>, <<"cmp2", 2>>, <<"chainc2", 2>>, <<"kwcall2", 2>>, <<"cut2", 2>>}
 
 VARIABLES chain, raiser
 vars == <<chain, raiser>>
